@@ -68,8 +68,14 @@ SHAPES = {
         ("d", "default", dict()),
     ],
 }
+# S12 (diamond: Base.w is must_finish, the left arm redefines it as a regular state, M(Left, Right)),
 # S9 (a timed state redefined in a subclass with another duration) and
 # S5 (inheritance / mix-in with an overridden state) are built specially in build_class.
+S12_META = [
+    ("a", "state", dict(first=True)),
+    ("w", "state", dict()),  # the redefinition in Left wins over Base's must_finish version (MRO: M, Left, Right, Base)
+    ("r", "timed", dict(duration=0.5, must_finish=True, next_state="w")),
+]
 S9_META = [
     ("a", "timed", dict(first=True, duration=0.25, next_state="b")),
     ("b", "timed", dict(duration=2.0, next_state="a")),  # redefinition of the base's b (duration 0.5)
@@ -83,7 +89,7 @@ S5_META = [
 
 
 def shape_spec(shape):
-    return S5_META if shape == "S5" else S9_META if shape == "S9" else SHAPES[shape]
+    return S5_META if shape == "S5" else S9_META if shape == "S9" else S12_META if shape == "S12" else SHAPES[shape]
 
 
 class Call:
@@ -281,6 +287,17 @@ def build_class(shape, asm, variant, H):
         src += fsrc("b", "state", dict(must_finish=True), 4)
         src += common
         spec = S5_META
+    elif shape == "S12":
+        src = "class B0(Base):\n"
+        src += fsrc("a", "state", dict(first=True), 0)
+        src += fsrc("w", "state", dict(must_finish=True), 1)
+        src += "class Left(B0):\n"
+        src += fsrc("w", "state", dict(), 2)
+        src += "class Right(B0):\n"
+        src += fsrc("r", "timed", dict(duration=0.5, must_finish=True, next_state="w"), 3)
+        src += "class M(Left, Right):\n"
+        src += common
+        spec = S12_META
     elif shape == "S9":
         src = "class B0(Base):\n"
         src += fsrc("a", "timed", dict(first=True, duration=0.25, next_state="b"), 0)
